@@ -8,6 +8,61 @@ HERE = os.path.dirname(os.path.dirname(os.path.abspath(__file__)))
 
 # pid -> (level category, technique, level text, level note, design ref)
 CHECKS = {
+    'C01': ('exploration',
+            'exhaustive enumeration of a structured point alphabet derived from the explored cell tree (E1+E2) through the real lonlat_to_cell, refuting spherical containment oracle on the published ring',
+            'For every explored cell (all cells of resolutions <= 4/6, digit-pattern and special-site cells to resolution 29) the centre and all corner/edge-midpoint points at three insets, plus log-scaled '
+            'neighbourhoods of the 62 frame points, poles and antimeridian at every resolution, periodic copies and exact poles: the call must not raise, return the requested resolution, and the ring from '
+            'cell_to_boundary must enclose the point (edge ties accepted and counted).',
+            'Finite alphabet of inputs, not all reals: relies on piecewise smoothness between alphabet points. Oracle trusts vf/sphere.py (closed-form authalic latitude, winding number in the gnomonic plane).',
+            'DESIGN.md 2/E2, 3/C01'),
+    'C02': ('model_checking',
+            'explicit-state BFS of the cell tree (real cell_to_children semantics via the reference tree) evaluating the id->centre->id round trip with the real functions in every state',
+            'Every cell of resolutions 0..5 (quick) / 0..7 (thorough, 327 672 cells) plus digit-pattern and special-site cells at every resolution to 29: centre coordinates in range, strictly inside the own ring, and mapping back to the same id.',
+            'Above the exhaustive bound only pattern- and site-directed cells. Strict interior judged by the independent oracle with a 1e-3 width clearance.',
+            'DESIGN.md 3/C02'),
+    'C03': ('model_checking',
+            'complete enumeration of all cells of a level with a manifold certificate (directed-edge matching, Euler characteristic, area sum) + adjacency-graph BFS through the real lonlat_to_cell at deeper levels',
+            'All cells of every resolution 0..6 (quick) / 0..7 (thorough): each directed edge once, reverse once in another cell, shared interior samples equal, V-E+F=2, areas sum to 4 pi. Resolutions 2..29: from seed cells '
+            'the neighbour across each edge is looked up with lonlat_to_cell just beyond it and must carry the reversed edge; adjacency symmetric; vertex fans close after 3-5 cells with angles 2 pi.',
+            'Beyond the exhaustive levels only neighbourhoods of seed cells (poles, antimeridian, frame points, digit patterns) are certified.',
+            'DESIGN.md 3/C03'),
+    'C04': ('exploration',
+            'enumeration of explored cells with converged (Richardson-extrapolated) ring areas against 4 pi / N',
+            'Every cell of resolutions 0..4 (quick) / 0..5 (thorough) and digit-pattern / special-site cells to resolution 29: ring area at K, 4K, 16K(, 64K) segments per edge extrapolated to K -> infinity equals '
+            '4 pi / get_num_cells(r) within 1e-6 (+ coordinate rounding at r >= 20).',
+            'Closed-form authalic latitude oracle; discretisation error assumed ~K^-2 (measured).',
+            'DESIGN.md 3/C04'),
+    'C07': ('model_checking',
+            'explicit-state exploration of all descent paths (4 levels, plus 16 extreme 12-level paths) from every explored cell with the real cell_to_children / cell_to_lonlat',
+            'Every cell of resolutions 0..3 (+3 levels at 4) quick / 0..5 thorough and digit-pattern cells to 28: every descendant within 1.5 ancestor widths; every ancestor of the cells of the special-site point alphabet within 2.5 widths; exact nesting of faces and segments.',
+            'Descents deeper than 4 levels only along the 16 extreme digit paths.',
+            'DESIGN.md 3/C07'),
+    'C11': ('exploration',
+            'enumeration of the C01 point alphabet and of explored cells against distance/shape bounds',
+            'Quantisation distance <= 1.0 width for the whole point alphabet at every resolution; five distinct corners at 0.35..1.0 widths from the centre for every cell of resolutions 2..5/6 and seeds to 29.',
+            'Finite alphabet; great-circle distances on the closed-form authalic sphere.',
+            'DESIGN.md 3/C11'),
+    'C12': ('model_checking',
+            'exhaustive enumeration cells x 25 option configurations through the real cell_to_boundary',
+            'Every cell of resolutions 0..4 (quick) / 0..6 (thorough), pattern cells and all pole / antimeridian / frame-point cells to resolution 29 x every closed_ring/segments combination: vertex counts, closure, no repeats, '
+            'latitude range, simple and counter-clockwise, corners independent of segments, longitude continuity unless a pole is in/on the cell, options not mutated.',
+            'Simplicity decided in the gnomonic plane at the ring centroid. Cells outside the enumerated set are not covered.',
+            'DESIGN.md 3/C12'),
+    'C13': ('exploration',
+            'structured lattice enumeration through the real forward/inverse projection on all 12 faces',
+            'Fibonacci lattice of 2e5 (quick) / 1e6 (thorough) directions and log-scaled neighbourhoods of the 62 frame points on nearest and adjacent faces; polar lattices and 1e-12..1e-3 approaches to every seam, edge, vertex, centre and mirror apex on all faces; cold and warm caches.',
+            'Finite lattice; smoothness inside each of the 240 triangle pieces assumed between lattice points.',
+            'DESIGN.md 3/C13'),
+    'C14': ('exploration',
+            'catalogue enumeration of planar polygons on all 12 faces, unprojected with the real inverse and integrated with an independent spherical area formula',
+            '12 faces x ~930 (quick) / ~1860 (thorough) triangles/quads at 5 sizes centred on the centre, all seams, edges (straddling and beyond) and vertices: spherical area = planar area x global constant within 1e-6.',
+            'Polylines get vertices at every seam/edge crossing (the map is only piecewise smooth); K^-2 extrapolation.',
+            'DESIGN.md 3/C14'),
+    'C15': ('exploration',
+            'dense 1-D grid enumeration through the real latitude conversions against the closed-form WGS84 authalic latitude',
+            '1e6 (quick) / 4e6 (thorough) uniformly spaced latitudes plus log ladders to 0 and +-90: accuracy 1e-10, oddness, fixed points, strict monotonicity between consecutive points, inverse round trip 1e-12, also through from_lonlat/to_lonlat.',
+            'Grid, not all reals: a 6-term trigonometric polynomial has no feature narrower than the spacing.',
+            'DESIGN.md 3/C15'),
     'C05': ('model_checking',
             'explicit-state enumeration of the cell tree on the real codec, reference-codec conformance on every edge',
             'Every (face, segment, S) of resolutions 0..7 (quick) / 0..8 (thorough) and digit-pattern seeds for every deeper '
